@@ -22,7 +22,7 @@ from checks import common
 from lift.generic import base_net, add_tr, shapes as mk_shapes, enabled, NAMES
 
 PROP = "C10"
-MODELS = "/repo/models/bbm-bnet-inputs-true"
+MODELS = os.path.join(os.environ.get("VERIF_REPO", "/repo"), "models/bbm-bnet-inputs-true")
 FUNCTIONS = ["petri_net_translation.network_to_petrinet", "petri_net_translation.optimized_recursive_dnf_generator",
              "petri_net_translation._create_transitions", "petri_net_translation.restrict_petrinet_to_subspace",
              "space_utils.percolate_network", "space_utils.restrict_expression"]
